@@ -273,6 +273,7 @@ func (w *World) newNode(id uint64) *node {
 		panic(fmt.Sprintf("harness: no config for node %d", id))
 	}
 	n := &node{id: id, cfg: nc, disk: newDisk()}
+	n.disk.SplitHS = w.Cfg.SplitHS
 	w.nodes[id] = n
 	w.ids = append(w.ids, id)
 	sort.Slice(w.ids, func(i, j int) bool { return w.ids[i] < w.ids[j] })
